@@ -70,7 +70,7 @@ def run(repo, rep, tier):
 # ---------------------------------------------------------------------------
 
 
-def deps(fnode, expr):
+def deps(fnode, expr, opaque_calls=()):
     """Names (dotted, e.g. self.pos / index.start / sep) the value of
     ``expr`` data-depends on inside ``fnode`` (flow-insensitive fixpoint over
     assignments, augmented assignments and for-targets)."""
@@ -90,9 +90,20 @@ def deps(fnode, expr):
     calls = set()
     todo = [expr]
     seen = set()
+    def walk_cut(e):
+        # ast.walk that does not descend into opaque calls
+        stack = [e]
+        while stack:
+            n = stack.pop()
+            if isinstance(n, ast.Call) and src(n.func) in opaque_calls:
+                calls.add(src(n.func))
+                continue
+            yield n
+            stack.extend(ast.iter_child_nodes(n))
+
     while todo:
         e = todo.pop()
-        for n in ast.walk(e):
+        for n in walk_cut(e):
             if isinstance(n, ast.Attribute):
                 d = _dotted(n)
                 if d:
@@ -152,7 +163,11 @@ def _algebra(repo, rep):
         for c in ctor:
             n += 1
             posarg = c.args[1]
-            d, calls = deps(m.node, posarg)
+            # the parts themselves depend on the separator; the position
+            # must depend on it by another route
+            d, calls = deps(m.node, posarg,
+                            opaque_calls=("str.split",) if name == "split"
+                            else ())
             keeps = len(c.args) >= 4 and src(c.args[2]) == "self.source" \
                 and src(c.args[3]) == "self.filename"
             rep.check(keeps, "R11.1", site, "%s keeps source and filename of "
